@@ -49,6 +49,17 @@ CHECKS = {
         note=AX_R + 'finite log-likelihoods in the lists (zero-probability samples are counted in N only); prior factor p > 0 as a parameter; '
              'the two-PDF dkl() is covered by the oracle only (zero on identical inputs, non-negative); rounding is judged against mpmath.',
         design='6 C10'),
+    'C09': dict(
+        technique='Coq proof by induction over arbitrary batch histories about an executable Gallina model of Sample.append/output selection/termination, tied to the implementation by vm_compute correspondence on replayed histories',
+        text='Theorems in coq/Props/C09.v (axiom-free): for every storage increment k>0 and every list of batches the model run '
+             'never fails and exposes exactly the non-zero candidates in order with their own log-probabilities and scale factors, '
+             'the tried count is the sum of the batch sizes, growth preserves earlier content, an exact fill still leaves a spare '
+             'column, an all-zero history is empty, the discard removes exactly the samples more than the threshold below the '
+             'maximum, and sample-count-limited sampling stops at the first batch reaching the limit. Unbounded in history length '
+             'and sizes; the implementation is compared with the model (inside Coq) on exhaustive small and random histories.',
+        note='no axioms; hand model of numpy slicing/append (Model/Store.v) tied by correspondence only; integer-valued log-probabilities '
+             'in the correspondence; normalisation to unit total and multi-row marginals are judged numerically by the oracle.',
+        design='6 C09'),
 }
 
 NA_REASON = 'check not built yet (work in progress; see DESIGN.md section 6)'
